@@ -280,6 +280,11 @@ def main(argv=None):
             known_hits.append((kf, o))
             continue
         in_base = baseline is not None and o["name"] in baseline
+        # run-time-error obligations (`…/rte/no-overflow-i16#k`, division by zero, conversion range) are numbered by the operations of the
+        # code: after a change the k-th operation is another one.  Every such obligation of the pinned tree was discharged (the check was
+        # green), so one that now has a counter-model is a regression of "this unit has no run-time error", whatever its number
+        if not in_base and baseline is not None and "/rte/" in o["name"] and o["status"] == "sat" and o.get("model") is not None:
+            in_base = True
         if o.get("structural"):
             # an obligation about the shape of the proof (slice/frame of the code), not about behaviour: its failure
             # leaves the property undecided; only a behavioural obligation with a failing input is a violation.
@@ -307,7 +312,8 @@ def main(argv=None):
     defect = []
     proved_units = {(r["file"], r["unit"]) for r in results}
     failing_units = {(o["_res"]["file"], o["_res"]["unit"]) for o in undis if o["_res"]}
-    unproved_units = {(r["file"], r["unit"]) for r in broken_units if r["status"] not in ("crash", "specerror")}
+    # (a unit whose contract can no longer be read against the code - a local it names is gone - is as unproved as one beyond a tool limit)
+    unproved_units = {(r["file"], r["unit"]) for r in broken_units if r["status"] not in ("crash",)}
     # a unit (or an inlined callee of it) outside the verifier's reach is not proved; if the native cross-check of its
     # contract then fails on the REAL code with a concrete input, that input is a replayed violation of the contract
     inlined_into = {}
